@@ -6,6 +6,7 @@
 package font
 
 import (
+	"encoding/binary"
 	"errors"
 	"fmt"
 	"math"
@@ -256,6 +257,11 @@ func NewFont(ld *ot.Loader) (*Font, error) {
 	out.bitmap = selectBitmapTable(ld)
 
 	raw, _ = ld.RawTable(ot.MustNewTag("sbix"))
+	// every strike is materialized with a header and nGlyphs + 1 offsets, and the strike
+	// offsets may be equal: ignore a table which can not hold that many distinct strikes
+	if len(raw) >= 8 && uint64(binary.BigEndian.Uint32(raw[4:]))*4*uint64(out.nGlyphs+2) > uint64(len(raw)) {
+		raw = nil
+	}
 	sbix, _, _ := tables.ParseSbix(raw, out.nGlyphs)
 	out.sbix = newSbix(sbix)
 
